@@ -12,6 +12,8 @@ CLAIMED = {
     'C11': (T, Q, None),
     'C12': (T, Q, None),
     'C13': (T, Q, None),
+    'C15': (T, 'scope discipline proved on the pipeline skeleton for every evaluator and leaf; tied to the code by probe texts against a reference lexical-scope interpreter and the context probe hook', None),
+    'C16': (T, 'unrolling equations proved on the pipeline skeleton; translation validation of generated programs against their unrolled twins on the implementation', None),
     'C17': (T, 'theorems about the pipeline skeleton, generic in evaluator and leaf; tied to the code by two-sided limit verdicts and the context probe hook', None),
     'C07': ('Coq proof over a Gallina state machine of the front-ends (abstract transform T, file system with name resolution and '
             'file identity) + history correspondence against library / svgdx binary / svgdx-server + oracle',
